@@ -293,6 +293,7 @@ PROPS["C14"] = {
              "Distinct by hash(sources, file order, call order)."),
     "assumptions": [],
     "lanes": [
+        lane("TestDeps", "deps", 400, 4000, shards=4, must_classes=["neighbour:sub-package", "neighbour:longer-name", "own-files:2"]),
         lane("TestDeterminism", "determinism", 150, 800, shards=16, must_classes=["enum-option-info", "multi-package", "multi-file-package", "stale-generated-file", "nested-package", "earlier-compile", "imports-sharing-default-name"]),
     ],
 }
